@@ -17,6 +17,7 @@ pub mod lru_file;
 use std::collections::HashMap;
 use std::path::{Path, PathBuf};
 
+use tokio::io::AsyncWriteExt;
 use tracing::{debug, warn};
 
 use lru_file::{
@@ -203,12 +204,26 @@ impl LruManager {
         let data = serialize(&self.header, &self.entries);
         let path = lru_file_path(&self.data_dir, self.generation);
 
-        tokio::fs::write(&path, &data).await.map_err(|e| {
-            crate::StorageError::Cache(format!(
+        // Atomic replacement: write a temp file, fsync it, then rename it over the
+        // generation file, so a crash leaves either the previous checkpoint or the
+        // complete new one (the temp name is not a valid `.lru` filename and is
+        // ignored by `find_latest_lru_file`).
+        let temp_path = path.with_extension("lru.tmp");
+        let write_result = async {
+            let mut file = tokio::fs::File::create(&temp_path).await?;
+            file.write_all(&data).await?;
+            file.sync_all().await?;
+            drop(file);
+            tokio::fs::rename(&temp_path, &path).await
+        }
+        .await;
+        if let Err(e) = write_result {
+            let _ = tokio::fs::remove_file(&temp_path).await;
+            return Err(crate::StorageError::Cache(format!(
                 "failed to write LRU checkpoint to {}: {e}",
                 path.display()
-            ))
-        })?;
+            )));
+        }
 
         debug!(
             "LRU checkpoint: generation {} -> {}",
